@@ -1081,7 +1081,43 @@ func histAgain(w *bufio.Writer, file, variant int, source, text, firstDump strin
 // dump of the result of the last runCase ("" when it did not compile)
 var lastDump string
 
+// failingCompilesBefore: every third case is preceded by compilations of CORRUPTED variants of the same text whose
+// outcome is ignored - the text cut off inside a string literal (right after an opening quote and a few bytes
+// further on), an ill-formed UTF-8 byte inside a string literal, the text cut off at an arbitrary offset. A compile
+// result is a function of the text alone; a failure of an earlier call (in particular one raised in the middle of a
+// string literal, where the parser holds a partly filled buffer) must not leak into it (seeded change C05-w10-m1:
+// a pooled string buffer returned dirty on the panic path). Deterministic in (file, variant); prints nothing.
+var faultyCompiles int
+
+func failingCompilesBefore(file, variant int, source, text string) {
+	if (file+variant)%3 != 0 || len(text) == 0 {
+		return
+	}
+	var quotes []int
+	for i := 0; i < len(text); i++ {
+		if text[i] == '"' {
+			quotes = append(quotes, i)
+		}
+	}
+	try := func(t string) {
+		defer func() { _ = recover() }()
+		_, _ = generate.Compile(source, []byte(t))
+		faultyCompiles++
+	}
+	if len(quotes) > 0 {
+		q := quotes[(file*7+variant)%len(quotes)]
+		try(text[:q+1])
+		if q+4 <= len(text) {
+			try(text[:q+4])
+		}
+		try(text[:q+1] + "left\xffover" + text[q+1:])
+		try(text[:q+1] + "stale text that was never closed")
+	}
+	try(text[:(file*131+variant*17)%len(text)])
+}
+
 func runCase(w *bufio.Writer, file, variant int, kind, what, source, text string) {
+	failingCompilesBefore(file, variant, source, text)
 	lastDump = ""
 	fmt.Fprintf(w, "CASE %d %d %s %s\n", file, variant, kind, what)
 	fmt.Fprintf(w, "TEXT %s\n", hS(text))
